@@ -1,1 +1,3 @@
+pub mod eval;
 pub mod isa;
+pub mod layout;
